@@ -20,6 +20,10 @@ CHECKS = {
    "Seeded histories (5-40 operations: listings through any protocol incl. TLS variants, file create/delete/rename/rewrite, .names/.cap/.abstract edits, clock advances on both sides of the lifetime) run against one long-lived real server on a scratch tree with a simulated clock and simulated mtimes; lifetimes 0,1,2,180,3600; both directory handlers and server types. Every served listing must equal the fresh reference rendering of some tree state that was live within (now-L, now] (only the current state for L=0). Sampling of histories, no exhaustiveness.",
    "Trusts the simulator and the reference server (the same pygopherd code run alone with cachetime 0 on a snapshot of the state). Monotone clock only. One known finding (D14) is listed in known_findings.json.",
    "deterministic simulation: simulated clock + mtimes, seeded mutation/advance/request histories, history oracle against per-state reference renderings (explicit cache-age model)"),
+ "C14": ("exploration", "3.8",
+   "Seeded bursts of 2-8 simultaneous mixed-protocol clients (plaintext and stub-TLS, incl. header-detected WAP) against the real ThreadingTCPServer (baton-passing threads, pre-emption at every seam call, at sampled Python lines and around every statically found store to shared module/class/server state) and the real ForkingTCPServer (simulated fork with descriptor refcounts and private module memory per child); cold start per run, optional second burst on the warm server, shared directory caches; network plans with segmentation, delays, a stalled client, a slow reader with a small send buffer, a reset. Schedules are drawn by a seeded uniform/sticky/PCT scheduler. Oracles: byte equality with the sequential reference answer, bounded liveness (answered within 1 simulated second of the last request byte whatever other clients do; probes served), reaping (no zombie, no returning child, no leaked connection reference, finished threads leave server._threads). Sampling of schedules.",
+   "Trusts the simulator. Pre-emption granularity is a Python line; class objects and stdlib module state are shared between simulated children; kernel TCP/TLS/fork are stubs.",
+   "deterministic simulation: seeded PCT/uniform scheduling of real worker threads and simulated forked children with line-level and shared-store-directed pre-emption, network fault plans, reference-model comparison + liveness/reaping invariants"),
 }
 
 NA = {
@@ -39,7 +43,6 @@ PENDING = {
  "C02": "claimed in DESIGN.md; check not built yet in this revision",
  "C03": "claimed in DESIGN.md; check not built yet in this revision",
  "C07": "claimed in DESIGN.md; check not built yet in this revision",
- "C14": "claimed in DESIGN.md; check not built yet in this revision",
  "C19": "claimed in DESIGN.md; check not built yet in this revision",
 }
 
